@@ -540,6 +540,26 @@ def judge_c04_lenient(ctx, rows, bases):
     return n
 
 
+def judge_value_missing(ctx, rows):
+    """a leaf that has lost its value attribute (XML): the document is refused, or it is the document in which that leaf has an empty
+    value - never another message (nothing else of the document may move)"""
+    by = {}
+    for c, s, x in rows:
+        if c["enc"] == "xml" and c["op"] in ("value-missing", "value-empty") and c.get("op2", "none") == "none":
+            by.setdefault((c["doc"], c["at"]), {})[c["op"]] = (c, s, x)
+    n = 0
+    for key, d in by.items():
+        if len(d) != 2:
+            continue
+        n += 1
+        (cm, sm, xm), (ce, se, xe) = d["value-missing"], d["value-empty"]
+        om, oe = xm["first"], xe["first"]
+        if om["Outcome"] == "value" and (oe["Outcome"] != "value" or om.get("Bin") != oe.get("Bin")):
+            ctx.violation("shape:xml:value-missing:another-message", "XML leaf without value attribute at %s (%s) is accepted, but not as the document in which that leaf has an empty value (that one is %s)" % (
+                cm["node"]["n"], cm["doc"], oe["Outcome"]), {"case": cm, "doc": sm["doc"][:20000], "result": om, "with_empty_value": oe})
+    return n
+
+
 def judge_c04_cross(ctx, rows):
     """the same restructured tree written in XML and in JSON is the same message: both decoders accept it with the same binary, or
     both reject it (tree mutations only: they mean the same in both encodings)"""
